@@ -183,8 +183,32 @@ def make_io(kind, port, bufsize=None):
     return SyncIO(port, bufsize) if kind == "sync" else AsyncIO(port, bufsize)
 
 
+class HostStuck(RuntimeError):
+    """the host procedure made no progress for DRIVE_LIMIT_S seconds of wall-clock time (a blocking call without its timeout, a busy loop)"""
+
+
+DRIVE_LIMIT_S = 45
+
+
 def drive(kind, coro):
-    """Run the host procedure: the sync transport never suspends, so one `send` finishes it; the async one gets its own loop."""
+    """Run the host procedure: the sync transport never suspends, so one `send` finishes it; the async one gets its own loop.
+    A wall-clock alarm (main thread) turns a procedure that is stuck -- in a blocking recv, or spinning without yielding -- into an exception."""
+    import signal
+    armed = threading.current_thread() is threading.main_thread()
+    if armed:
+        def on_alarm(signum, frame):
+            raise HostStuck("no result after %d s: the transport call neither returned nor raised its timeout" % DRIVE_LIMIT_S)
+        old = signal.signal(signal.SIGALRM, on_alarm)
+        signal.setitimer(signal.ITIMER_REAL, DRIVE_LIMIT_S)
+    try:
+        return _drive(kind, coro)
+    finally:
+        if armed:
+            signal.setitimer(signal.ITIMER_REAL, 0)
+            signal.signal(signal.SIGALRM, old)
+
+
+def _drive(kind, coro):
     if kind == "sync":
         try:
             coro.send(None)
